@@ -181,13 +181,34 @@ func cmdCheck(args []string) int {
 	havocked := map[string]int{}
 	usedContracts := map[string]bool{}
 	genT0 := time.Now()
+	type target struct {
+		ct *Contract
+		fn *ssa.Function
+	}
+	var work []target
 	for _, ct := range targets {
 		fn := W.FindFunc(ct)
 		if fn == nil || len(fn.Blocks) == 0 {
 			stale = append(stale, ct.Key())
 			continue
 		}
+		if fn.TypeParams().Len() > 0 {
+			// generic: verify every instantiation reachable in the loaded packages
+			insts := W.instancesOf(fn)
+			if len(insts) == 0 {
+				stale = append(stale, ct.Key()+" (generic, no instantiation in the loaded packages)")
+			}
+			for _, in := range insts {
+				work = append(work, target{ct, in})
+			}
+			continue
+		}
+		work = append(work, target{ct, fn})
+	}
+	for _, tg := range work {
+		ct, fn := tg.ct, tg.fn
 		ex := NewExec(W, prop)
+		ex.instSuffix = instSuffix(fn)
 		rep := func() (rep *FnReport) {
 			defer func() {
 				if r := recover(); r != nil {
